@@ -13,25 +13,29 @@ import (
 
 // ZoneSpec describes one zone for Build.
 type ZoneSpec struct {
-	Apex     string
-	Signed   bool
-	NSEC3    bool
-	OptOut   bool
-	Salt     string
-	Iter     uint16
-	NoDS     bool   // signed island: parent proves there is no DS
-	WrongDS  bool   // parent publishes a DS matching no key
-	Alg      uint8  // dns.ECDSAP256SHA256 (default) or dns.ED25519
-	Split    bool   // separate KSK and ZSK
-	Servers  int    // number of authorities (default 1)
-	Shared   bool   // served by the parent's first authority as well (instead of own servers)
-	NSHost   string // single NS host name outside the zone (glueless delegation); its A record is planted in the zone that holds it
-	Owners   map[string][]uint16
-	Targets  map[string]string
-	TTL      uint32
-	NegTTL   uint32
-	TTLs     map[string]uint32
-	Lifetime time.Duration // signature validity from Epoch (default 30 days)
+	Apex        string
+	Signed      bool
+	NSEC3       bool
+	OptOut      bool
+	Salt        string
+	Iter        uint16
+	NoDS        bool     // signed island: parent proves there is no DS
+	WrongDS     bool     // parent publishes a DS matching no key
+	Alg         uint8    // dns.ECDSAP256SHA256 (default) or dns.ED25519
+	Split       bool     // separate KSK and ZSK
+	Servers     int      // number of authorities (default 1)
+	Shared      bool     // served by the parent's first authority as well (instead of own servers)
+	Addrs       []string // explicit authority addresses (default: allocated sequentially)
+	Tag         string   // folded into generated RDATA, so two versions of a zone publish different data
+	KeyGen      int      // key generation: another value gives the zone other keys (and so another DS)
+	ExtraNSHost string   // the last NS host is named outside the zone (no glue) while the others keep glue: a partially glued referral
+	NSHost      string   // single NS host name outside the zone (glueless delegation); its A record is planted in the zone that holds it
+	Owners      map[string][]uint16
+	Targets     map[string]string
+	TTL         uint32
+	NegTTL      uint32
+	TTLs        map[string]uint32
+	Lifetime    time.Duration // signature validity from Epoch (default 30 days)
 }
 
 // Build assembles a world from zone specs (the root must be among them).
@@ -45,7 +49,7 @@ func Build(specs []ZoneSpec) *World {
 		apex := strings.ToLower(dns.Fqdn(sp.Apex))
 		z := &SZone{Zone: &vfmodel.Zone{Apex: apex, Owners: map[string]map[uint16]bool{}, Glue: map[string]bool{}, Salt: sp.Salt, Iterations: sp.Iter, OptOut: sp.OptOut},
 			Signed: sp.Signed, NSEC3: sp.NSEC3, Children: map[string]*SZone{}, Targets: map[string]string{}, TTL: sp.TTL, NegTTL: sp.NegTTL, TTLs: sp.TTLs,
-			NoDS: sp.NoDS, WrongDS: sp.WrongDS}
+			NoDS: sp.NoDS, WrongDS: sp.WrongDS, Tag: sp.Tag}
 		if z.TTL == 0 {
 			z.TTL = 300
 		}
@@ -67,10 +71,10 @@ func Build(specs []ZoneSpec) *World {
 			if alg == 0 {
 				alg = dns.ECDSAP256SHA256
 			}
-			z.KSK = NewKey(apex, alg, 257, 0)
+			z.KSK = NewKey(apex, alg, 257, 2*sp.KeyGen)
 			z.ZSK = z.KSK
 			if sp.Split {
-				z.ZSK = NewKey(apex, alg, 256, 1)
+				z.ZSK = NewKey(apex, alg, 256, 2*sp.KeyGen+1)
 			}
 		}
 		for o, ts := range sp.Owners {
@@ -103,6 +107,9 @@ func Build(specs []ZoneSpec) *World {
 			for i := 0; i < nsrv; i++ {
 				ip := fmt.Sprintf("198.51.100.%d", ipn)
 				ipn++
+				if i < len(sp.Addrs) {
+					ip = sp.Addrs[i]
+				}
 				host := fmt.Sprintf("ns%d.%s", i+1, apex)
 				if apex == "." {
 					host = fmt.Sprintf("ns%d.", i+1)
@@ -114,6 +121,31 @@ func Build(specs []ZoneSpec) *World {
 				}
 				z.Owners[host][dns.TypeA] = true
 			}
+		}
+		plant := func(host, ip string) {
+			var best *SZone
+			for _, o := range w.Zones {
+				if vfmodel.IsSubdomain(host, o.Apex) && (best == nil || len(o.Apex) > len(best.Apex)) {
+					best = o
+				}
+			}
+			if best == nil {
+				return
+			}
+			if best.Owners[host] == nil {
+				best.Owners[host] = map[uint16]bool{}
+			}
+			best.Owners[host][dns.TypeA] = true
+			if best.AOverride == nil {
+				best.AOverride = map[string]string{}
+			}
+			best.AOverride[host] = ip
+		}
+		if sp.ExtraNSHost != "" && !sp.Shared && len(z.NSHosts) > 1 {
+			last := len(z.NSHosts) - 1
+			delete(z.Owners, z.NSHosts[last])
+			z.NSHosts[last] = strings.ToLower(dns.Fqdn(sp.ExtraNSHost))
+			plant(z.NSHosts[last], z.Servers[last])
 		}
 		if sp.NSHost != "" && !sp.Shared {
 			// glueless: the zone keeps its own server, but names it through a host in another zone
